@@ -132,9 +132,12 @@ def parse_props(name, pa_output):
       cur = []
       blocks.append(cur)
     elif cur is not None:
-      m = re.match(r'^(\S+)\s*:', line)
+      # an axiom entry starts in column 0 (its type may continue on indented lines)
+      m = re.match(r'^([A-Za-z_][\w.\']*)\s*(:.*)?$', line)
       if m:
         cur.append(m.group(1))
+      elif line and not line[0].isspace():
+        cur = None
   axioms = {}
   for i, t in enumerate(printed):
     axioms[t] = blocks[i] if i < len(blocks) else None
